@@ -437,6 +437,118 @@ Proof.
     destruct HB as [->| ->], HH as [->| ->]; rewrite ?Z.eqb_refl, ?orb_true_r; reflexivity.
 Qed.
 
+(* ---- the repair of the mask check (strict_mask = true) ---------------------------------------------------- *)
+(* a successful bind_dims binds every listed name to the dim at its position *)
+Lemma bind_dims_binds : forall actual names b b', bind_dims b actual names = Some b' ->
+  forall j n a, nth_error names j = Some n -> nth_error actual j = Some a -> lookup b' n = Some a.
+Proof.
+  induction actual as [|x at' IH]; intros [|m nt] b b' H j n a Hn Ha; simpl in H; try discriminate.
+  - destruct j; discriminate.
+  - destruct j as [|j]; simpl in Hn, Ha.
+    + inversion Hn; inversion Ha; subst. destruct (lookup b n) as [w|] eqn:E.
+      * destruct (Z.eqb a w) eqn:E2; [|discriminate]. apply Z.eqb_eq in E2. subst. eapply bind_dims_preserves; eauto.
+      * eapply bind_dims_preserves; eauto. simpl. rewrite Nat.eqb_refl. reflexivity.
+    + destruct (lookup b m) as [w|]; [destruct (Z.eqb x w); [|discriminate]|]; eapply IH; eauto.
+Qed.
+(* the repair only adds refusals *)
+Theorem mha_strict_refines : forall i r, mha_check_rewrite true i = Some r -> mha_check_rewrite false i = Some r.
+Proof.
+  intros i r. unfold mha_check_rewrite.
+  match goal with |- match ?b6 with _ => _ end = _ -> _ => destruct b6 as [bd|]; [|discriminate] end.
+  destruct (mi_mask i) as [[ms|]|]; auto.
+  destruct (length ms) as [|[|[|[|[|]]]]]; auto.
+  - destruct (bind_dims bd ms [10; 11]%nat) as [bd'|]; auto. simpl andb. destruct (negb (mask_last_ok (mi_has_past i) bd')); auto; cbv iota; intro; discriminate.
+  - destruct (bind_dims bd ms [8; 9; 10; 11]%nat) as [bd'|]; auto. simpl andb.
+    destruct (negb (mask_lead_ok bd' && mask_last_ok (mi_has_past i) bd')); auto; cbv iota; intro; discriminate.
+Qed.
+(* Sufficiency of the repaired check for the mask, on instances with static dims: query [B,S,D], key [Bk,Skv,Dk], T the
+   total key/value length (= Skv without a past).  The matched Add(scores [B,H,S,T], mask) is well-formed, so the last
+   mask dim is T or 1 and, for a 2-D mask, the first is S or 1.  Then the mask the fused node receives has the
+   documented attention_bias shape (1|B, 1|H, S, T). *)
+Theorem mha_check_strict_mask_sufficient : forall i h ub B S D Bk Skv Dk mask T,
+  mha_check_rewrite true i = Some (h, ub) ->
+  mi_query i = Some [B; S; D] -> mi_key i = Some [Bk; Skv; Dk] -> mi_mask i = Some (Some mask) ->
+  (0 < S)%Z ->
+  (last mask 0 = T \/ last mask 0 = 1)%Z ->
+  (mi_has_past i = false -> T = Skv) ->
+  (forall ms mt, mask = [ms; mt] -> ms = S \/ ms = 1%Z) ->
+  mha_mask_ok B h S T (mha_mask_after ub S mask) = true.
+Proof.
+  intros i h ub B S D Bk Skv Dk mask T H Q K M HS HL HT H2.
+  unfold mha_check_rewrite in H. rewrite Q, K, M in H.
+  match type of H with match ?b6 with _ => _ end = _ => destruct b6 as [bd|] eqn:E6; [|discriminate] end.
+  (* the bindings of B, S (query) and Skv (key) survive in bd *)
+  assert (LB : lookup bd 0%nat = Some B /\ lookup bd 1%nat = Some S /\ lookup bd 5%nat = Some Skv).
+  { assert (P : forall b5, check_shape (if Bool.eqb (mi_key_format_bhsd i) (mi_key_transposed i)
+                 then check_shape (check_shape (check_shape (Some []) (Some [B; S; D]) [0; 1; 2]%nat) (mi_query4 i) [0; 1; 3; 4]%nat) (Some [Bk; Skv; Dk]) [0; 5; 2]%nat
+                 else None) (mi_value i) [0; 5; 2]%nat = Some b5 ->
+               lookup b5 0%nat = Some B /\ lookup b5 1%nat = Some S /\ lookup b5 5%nat = Some Skv).
+    { intros b5 E5. apply check_shape_some in E5. destruct E5 as (b4 & lv & E4 & _ & Bv).
+      destruct (Bool.eqb (mi_key_format_bhsd i) (mi_key_transposed i)); [|discriminate].
+      apply check_shape_some in E4. destruct E4 as (b2 & lk & E2 & Ek & Bk').
+      inversion Ek; subst lk. clear Ek.
+      apply check_shape_some in E2. destruct E2 as (b1 & l4 & E1 & _ & B4).
+      simpl in E1. inversion E1; subst b1. clear E1.
+      assert (L0 : lookup b2 0%nat = Some B) by (eapply bind_dims_preserves; [exact B4|reflexivity]).
+      assert (L1 : lookup b2 1%nat = Some S) by (eapply bind_dims_preserves; [exact B4|reflexivity]).
+      assert (L5 : lookup b4 5%nat = Some Skv) by (eapply bind_dims_binds with (j := 1%nat); [exact Bk'| |]; reflexivity).
+      repeat split; eapply bind_dims_preserves; try exact Bv; auto; eapply bind_dims_preserves; try exact Bk'; auto. }
+    destruct (mi_has_past i).
+    - apply check_shape_some in E6. destruct E6 as (bp & lp & Ep & _ & Bp).
+      apply check_shape_some in Ep. destruct Ep as (b5 & lk & E5 & _ & Bk').
+      destruct (P _ E5) as (A0 & A1 & A5).
+      repeat split; eapply bind_dims_preserves; try exact Bp; eapply bind_dims_preserves; try exact Bk'; auto.
+    - apply P. exact E6. }
+  destruct LB as (L0 & L1 & L5).
+  destruct (lookup bd 3%nat) as [h'|] eqn:L3.
+  2:{ match type of H with match ?bm with _ => _ end = _ => destruct bm; discriminate end. }
+  destruct mask as [|m0 [|m1 [|m2 [|m3 [|m4 rest]]]]]; simpl length in H; cbv iota in H; try discriminate.
+  - (* rank 2 *)
+    destruct (bind_dims bd [m0; m1] [10; 11]%nat) as [bd'|] eqn:EB; [|discriminate].
+    simpl andb in H. destruct (mask_last_ok (mi_has_past i) bd') eqn:ML; simpl in H; [|discriminate].
+    destruct (is_static h') eqn:ST; [|discriminate]. inversion H; subst h' ub. clear H.
+    assert (L11 : lookup bd' 11%nat = Some m1) by (eapply bind_dims_binds with (j := 1%nat); [exact EB| |]; reflexivity).
+    assert (L5' : lookup bd' 5%nat = Some Skv) by (eapply bind_dims_preserves; eauto).
+    unfold mask_last_ok in ML. rewrite L11, L5' in ML. simpl in HL.
+    assert (m1 = T).
+    { destruct HL as [|E1]; auto. subst m1. simpl in ML. apply andb_prop in ML. destruct ML as [NP SK].
+      apply Z.eqb_eq in SK. rewrite HT; auto. destruct (mi_has_past i); auto; discriminate. }
+    subst m1. destruct (H2 _ _ eq_refl) as [->| ->]; unfold mha_mask_after, mha_mask_ok;
+      [rewrite Z.max_id | rewrite Z.max_r by lia]; rewrite !Z.eqb_refl; reflexivity.
+  - (* rank 4 *)
+    destruct (bind_dims bd [m0; m1; m2; m3] [8; 9; 10; 11]%nat) as [bd'|] eqn:EB; [|discriminate].
+    simpl andb in H.
+    destruct (mask_lead_ok bd') eqn:MLd; simpl in H; [|discriminate].
+    destruct (mask_last_ok (mi_has_past i) bd') eqn:ML; simpl in H; [|discriminate].
+    assert (L8 : lookup bd' 8%nat = Some m0) by (eapply bind_dims_binds with (j := 0%nat); [exact EB| |]; reflexivity).
+    assert (L9 : lookup bd' 9%nat = Some m1) by (eapply bind_dims_binds with (j := 1%nat); [exact EB| |]; reflexivity).
+    assert (L10 : lookup bd' 10%nat = Some m2) by (eapply bind_dims_binds with (j := 2%nat); [exact EB| |]; reflexivity).
+    assert (L11 : lookup bd' 11%nat = Some m3) by (eapply bind_dims_binds with (j := 3%nat); [exact EB| |]; reflexivity).
+    assert (L0' : lookup bd' 0%nat = Some B) by (eapply bind_dims_preserves; eauto).
+    assert (L1' : lookup bd' 1%nat = Some S) by (eapply bind_dims_preserves; eauto).
+    assert (L3' : lookup bd' 3%nat = Some h') by (eapply bind_dims_preserves; eauto).
+    assert (L5' : lookup bd' 5%nat = Some Skv) by (eapply bind_dims_preserves; eauto).
+    rewrite L10, L1' in H.
+    destruct (mask_dim2_rule S m2) as [ub'|] eqn:R; [|discriminate].
+    destruct (is_static h') eqn:ST; [|discriminate]. inversion H; subst h' ub'. clear H.
+    unfold mask_lead_ok in MLd. rewrite L8, L9, L0', L3' in MLd. apply andb_prop in MLd. destruct MLd as [MB MH].
+    apply orb_prop in MB. apply orb_prop in MH.
+    unfold mask_last_ok in ML. rewrite L11, L5' in ML. simpl in HL.
+    assert (m3 = T).
+    { destruct HL as [|E1]; auto. subst m3. simpl in ML. apply andb_prop in ML. destruct ML as [NP SK].
+      apply Z.eqb_eq in SK. rewrite HT; auto. destruct (mi_has_past i); auto; discriminate. }
+    subst m3. apply mha_mask_after_ok; auto.
+    split; [destruct MB as [E|E] | destruct MH as [E|E]]; apply Z.eqb_eq in E; auto.
+Qed.
+(* the two witnesses of the as-read findings are refused by the repaired check *)
+Theorem mha_mask_witnesses_refused_by_repair :
+  mha_check_rewrite true (mk_mha_in false true true (Some [2; 3; 8]%Z) (Some [2; 3; 2; 4]%Z) (Some [2; 3; 8]%Z) (Some [2; 3; 8]%Z) None None (Some (Some [2; 1; 3; 1]%Z))) = None
+  /\ mha_check_rewrite true (mk_mha_in false true true (Some [1; 3; 8]%Z) (Some [1; 3; 2; 4]%Z) (Some [1; 3; 8]%Z) (Some [1; 3; 8]%Z) None None (Some (Some [3; 1; 3; 3]%Z))) = None.
+Proof. split; vm_compute; reflexivity. Qed.
+Example mha_check_strict_mask_fires :
+  mha_check_rewrite true (mk_mha_in false true true (Some [2; 3; 8]%Z) (Some [2; 3; 2; 4]%Z) (Some [2; 5; 8]%Z) (Some [2; 5; 8]%Z) None None (Some (Some [2; 1; 1; 5]%Z))) = Some (2%Z, true).
+Proof. vm_compute. reflexivity. Qed.
+
 (* sdpa_via_mha: accepted => H static *)
 Lemma sdpa_via_mha_check_static : forall kb q k v h, sdpa_via_mha_check kb q k v = Some h -> (0 <= h)%Z.
 Proof.
@@ -477,6 +589,27 @@ Theorem gqa_check_mask_refuted : exists i h hkv il,
   gqa_check_rewrite false false i = Some (h, hkv, il) /\ gi_mask_is_causal_pattern i = false /\ gqa_check_rewrite true false i = None.
 Proof. exists (gqa_witness 16 false), 4%Z, 2%Z, 0%Z. repeat split; vm_compute; reflexivity. Qed.
 Example gqa_check_fires : gqa_check_rewrite true true (gqa_witness 16 true) = Some (4, 2, 0)%Z /\ gqa_kernel_ok 4 2 16 = true.
+Proof. split; vm_compute; reflexivity. Qed.
+
+(* the repair of the head-size finding (head16 = true): an accepted instance has a static head size divisible by 16, and
+   with kv_num_heads | num_heads everything the CPU kernel needs *)
+Theorem gqa_check_head16_sufficient : forall st i h hkv il, gqa_check_rewrite st true i = Some (h, hkv, il) ->
+  exists dh, dim_at (gi_query4 i) 3 = Some dh /\ (0 <= dh)%Z /\ (dh mod 16 = 0)%Z
+    /\ ((0 < hkv)%Z -> (h mod hkv = 0)%Z -> gqa_kernel_ok h hkv dh = true).
+Proof.
+  intros st i h hkv il. unfold gqa_check_rewrite.
+  destruct (gi_q_norm_twice i || gi_k_norm_twice i); [discriminate|].
+  match goal with |- match ?b with _ => _ end = _ -> _ => destruct b; [|discriminate] end.
+  destruct (dim_at (gi_query4 i) 2) as [x|]; [|discriminate]. destruct (dim_at (gi_key4 i) 2) as [y|]; [|discriminate].
+  match goal with |- (if ?c then _ else _) = _ -> _ => destruct c eqn:E; [|discriminate] end.
+  intro H; inversion H; subst. apply andb_prop in E. destruct E as [_ E]. simpl in E.
+  destruct (dim_at (gi_query4 i) 3) as [dh|]; [|discriminate].
+  apply andb_prop in E. destruct E as [E1 E2]. apply Z.leb_le in E1. apply Z.eqb_eq in E2.
+  exists dh. repeat split; auto. intros Hk Hm. unfold gqa_kernel_ok.
+  rewrite Hm, E2. simpl. apply Z.ltb_lt in Hk. rewrite Hk. reflexivity.
+Qed.
+Theorem gqa_head16_witness_refused_by_repair : gqa_check_rewrite true true (gqa_witness 8 true) = None
+  /\ gqa_check_rewrite false true (gqa_witness 24 true) = None.
 Proof. split; vm_compute; reflexivity. Qed.
 
 (* AttentionFusion.check: with one packed projection the three slices tile the projected hidden size *)
